@@ -144,7 +144,7 @@ func (h *Heap[T]) Delete(val T) (bool, error) {
 	swap(h.data, idx, len-1)
 	h.data = h.data[:len-1]
 
-	h.moveDown(len, 0)
+	h.moveDown(len-1, 0)
 
 	return true, nil
 }
